@@ -239,6 +239,8 @@ def eval_operand(fr, s, ctx):
             cf = [n for n, f in FNS.items() if f.params == 0 and not f.ptext and n.endswith('>::' + segs[-1]) and
                   (len(segs) < 2 or f.ret.strip().split('::')[-1] == segs[-2] or segs[-2] in n)]
             if len(cf) == 1: return run_fn(cf[0], [], ctx)
+            cf = [n for n, f in FNS.items() if f.params == 0 and not f.ptext and (n == c or n == segs[-1] or n.endswith('::' + segs[-1])) and 'promoted[' not in n and '{closure' not in n]
+            if len(cf) == 1: return run_fn(cf[0], [], ctx)       # a free constant with a computed initialiser
         return ('const', c)
     if re.match(r'^(<.*>|[A-Za-z_][\w:]*)(::<.*>)?::\w+(::<.*>)?$', s) and not re.fullmatch(r'_\d+', s):
         return ('fnitem', s)          # a function item passed as a value (e.g. to map_err)
@@ -852,15 +854,20 @@ def call(fr, callee, args, ctx):
         mu = _d(_d(args[0]).f[0].f[0])
         arr = mu.f[1].f[0].f[0]
         return VecV(list(arr.f))
-    mr_ = re.fullmatch(r'(?:std::result::)?Result::<.*>::(unwrap|expect|ok|is_ok|is_err|unwrap_or|map|map_err|and_then)(?:::<.*>)?', c)
+    mr_ = re.fullmatch(r'(?:std::result::)?Result::<.*>::(unwrap|expect|ok|is_ok|is_err|unwrap_or|map|map_err|and_then|unwrap_or_else|or_else)(?:::<.*>)?', c)
     if mr_ and isinstance(_d(args[0]), Enum) and _d(args[0]).variant in ('Ok', 'Err'):
         r_ = _d(args[0]); k_ = mr_.group(1)
         def callr(clo, *a):
-            if isinstance(clo, tuple) and clo and clo[0] == 'fnitem': return call(fr, clo[1], list(a), ctx)
+            if isinstance(clo, tuple) and clo and clo[0] == 'fnitem':
+                mk = re.fullmatch(r'(?:std::result::)?Result::<.*>::(Ok|Err)|(?:std::option::)?Option::<.*>::(Some)', clo[1])
+                if mk: return Enum(mk.group(1) or mk.group(2), list(a))        # a variant constructor used as a function
+                return call(fr, clo[1], list(a), ctx)
             return run_fn(closure_name(clo), [clo] + list(a), ctx)
         if k_ == 'map': return Enum('Ok', [callr(args[1], r_.f[0])]) if r_.variant == 'Ok' else r_
         if k_ == 'map_err': return Enum('Err', [callr(args[1], r_.f[0])]) if r_.variant == 'Err' else r_
         if k_ == 'and_then': return callr(args[1], r_.f[0]) if r_.variant == 'Ok' else r_
+        if k_ == 'unwrap_or_else': return r_.f[0] if r_.variant == 'Ok' else callr(args[1], r_.f[0])
+        if k_ == 'or_else': return r_ if r_.variant == 'Ok' else callr(args[1], r_.f[0])
         if k_ in ('unwrap', 'expect'):
             if r_.variant != 'Ok': raise NotEncodable('reachable panic: unwrap on Err')
             return r_.f[0]
